@@ -253,7 +253,7 @@ def run(chk: common.Check):
     for name in names:
         text = structures.read(name)
         ref = None
-        poses = [(None, (0, 0, 0)), (None, (0.001, 1.254, -2.509)), (rots[7], (100.0, -250.5, 3.333)), (rots[13], (-999.0, 0.0, 17.17)), (rots[22], (2.51, 5.02, -2.51))]
+        poses = [(None, (0, 0, 0)), (None, (0.001, 1.254, -2.509)), (rots[7], (100.0, -250.5, 3.333)), (rots[13], (-850.0, 0.0, 17.17)), (rots[22], (2.51, 5.02, -2.51))]
         for rot, sh in (poses if chk.thorough else poses[:3]):
             t2 = structures.move(text, rot, sh)
             mol, _ = structures.run(t2)
